@@ -443,13 +443,23 @@ pub fn check_strict(
   // closing segment). Attribution-only differences of such composites are a
   // recorded finding (DESIGN.md 7), not decided here.
   let replace_over_cache: Vec<bool> = scn.objects.iter().map(composite_over_cache).collect();
-  let any_replace_over_cache = replace_over_cache.iter().any(|b| *b);
+  // C10: objects whose root is the cache itself (the wrapper and its clones)
+  let direct: Vec<bool> = scn
+    .objects
+    .iter()
+    .map(|o| matches!(o, TreeSpec::Cached { .. }) || matches!(o, TreeSpec::Boxed { inner } if matches!(**inner, TreeSpec::Cached { .. })))
+    .collect();
+  // which object the op being judged ran on (set by the callers below): the
+  // composite-over-cache classification is per object (for C10 also when the
+  // wrapped tree itself, object 0, contains such a composite)
+  let judged_obj = std::cell::Cell::new(0usize);
+  let fragile_obj = |o: usize| replace_over_cache[o] || (mode == StrictMode::C10 && replace_over_cache[0]);
   // (Requiring a cached positional answer over an inconsistent wrapped tree to
   // equal *one of* the tree's own answers was tried and withdrawn: with
   // untrue positions the derived maps differ in encoding-order details — 58
   // spurious reports in 400 k runs.)
   let mut mismatch = |violations: &mut Vec<Violation>, counters: &mut Counters, class: &str, attribution_only: bool, detail: String| {
-    if attribution_only && any_replace_over_cache && (class == "map" || class == "stream") {
+    if attribution_only && fragile_obj(judged_obj.get()) && (class == "map" || class == "stream") {
       counters.inc("composite_over_cache_positions");
       violations.push(Violation {
         kind: "composite_over_cache_positions".into(),
@@ -497,12 +507,19 @@ pub fn check_strict(
         continue;
       }
       let who = format!("T{} op{} {} on object {}", t, i, op.kind.label(), op.obj);
+      judged_obj.set(op.obj);
+      if mode == StrictMode::C10 && !direct[op.obj] {
+        // a composite that contains a clone of the cache: a disturber that
+        // fills the cache's internal (final-source) entries; its own answers
+        // are not C10's subject
+        continue;
+      }
       if let Answer::Panicked(m) = a {
         if aborted_run {
           continue;
         }
         let fragile_panic = is_positional_op(&op.kind)
-          && replace_over_cache[op.obj]
+          && fragile_obj(op.obj)
           && !m.contains("PoisonError")
           && !m.contains("rspack_sources_verif: precondition");
         if fragile_panic {
@@ -604,9 +621,13 @@ pub fn check_strict(
           continue;
         }
         let who = format!("after the history, {} on object {}", TAIL_OPS[k].label(), o);
+        judged_obj.set(o);
+        if mode == StrictMode::C10 && !direct[o] {
+          continue;
+        }
         if let Answer::Panicked(m) = a {
           if is_positional_op(&TAIL_OPS[k])
-            && replace_over_cache[o]
+            && fragile_obj(o)
             && !m.contains("PoisonError")
             && !m.contains("rspack_sources_verif: precondition")
           {
@@ -781,7 +802,9 @@ pub fn edit_tree(rng: &mut Rng, t: &TreeSpec) -> TreeSpec {
         TreeSpec::RawString { text: format!("{}z", text) }
       }
     }
-    TreeSpec::RawBytes { bytes } => match rng.below(3) {
+    TreeSpec::RawBytes { bytes } => match rng.below(4) {
+      // the string variant holding exactly the lossy decoding of the bytes
+      3 => TreeSpec::Raw { text: String::from_utf8_lossy(bytes).into_owned() },
       0 => TreeSpec::RawBuffer { bytes: bytes.clone() },
       1 => {
         let mut b = bytes.clone();
@@ -955,6 +978,21 @@ pub fn gen_c14(rng: &mut Rng) -> Scenario {
     let mut ops = vec![];
     for _ in 0..n_ops {
       let obj = *rng.pick(&[0usize, 0, 0, 1, 1, 2]);
+      let edit_clone = match (&objects[obj], rng.chance(120)) {
+        (TreeSpec::Replace { inner, calls }, true) => {
+          let text = content(inner).0;
+          let call = gen::gen_call(rng, &text, ascii, calls);
+          Some(OpKind::CloneEditObserve {
+            call,
+            then: Box::new(if rng.chance(500) { OpKind::Source } else { OpKind::Hash }),
+          })
+        }
+        _ => None,
+      };
+      if let Some(kind) = edit_clone {
+        ops.push(Op { obj, kind });
+        continue;
+      }
       let kind = match rng.below(100) {
         0..=14 => OpKind::Eq { other: *rng.pick(&[0usize, 1, 1, 2]) },
         15..=24 => OpKind::Hash,
@@ -1005,6 +1043,34 @@ pub fn gen_c10(rng: &mut Rng) -> Scenario {
   let mut objects = vec![w];
   for _ in 0..=n_clones {
     objects.push(cached.clone());
+  }
+  // 40 %: a parent composite that contains a clone of the cache. Calls on it
+  // reach the cache with the crate-internal final-source option keys, which
+  // no direct call can; its own answers are not judged (disturber).
+  if rng.chance(400) {
+    let sibling = gen::gen_leaf(rng, &cfg);
+    let parent = match rng.below(4) {
+      0 => TreeSpec::Concat {
+        children: vec![cached.clone(), sibling],
+        how: ConcatHow::New,
+      },
+      1 => TreeSpec::Concat {
+        children: vec![sibling, cached.clone()],
+        how: ConcatHow::AddLater,
+      },
+      2 => TreeSpec::Concat {
+        children: vec![cached.clone(), cached.clone()],
+        how: ConcatHow::New,
+      },
+      _ => {
+        let text = content(&cached).0;
+        TreeSpec::Replace {
+          inner: Box::new(cached.clone()),
+          calls: gen::gen_calls(rng, &text, 2, true),
+        }
+      }
+    };
+    objects.push(parent);
   }
   let n_threads = match rng.below(10) {
     0..=5 => 1,
